@@ -822,6 +822,140 @@ Fixpoint resolve (we re : env) (w r : schema) (a : aval) {struct a} : rres pyval
   | _, _ => RErrOther              (* the value does not fit the writer schema / undefined reference *)
   end.
 
+
+(* ------------------------------------------------------------------------------------------ *)
+(** * Part 3: the agreement zone (computable side condition of theorem C08_factor_zone_partial) *)
+
+Definition is_union (s : schema) : bool := match s with SUnion _ => true | _ => false end.
+
+
+(** schemas without by-name references and annotations; unions are not nested *)
+Fixpoint inline (s : schema) : bool :=
+  match s with
+  | SRef _ | SAnnot _ _ => false
+  | SArray s | SMap s => inline s
+  | SUnion bs => forallb (fun b => negb (is_union b) && inline b) bs
+  | SRecord _ _ fs => forallb (fun f => inline (ftype f)) fs
+  | _ => true
+  end.
+
+
+(** positions instead of schemas: which reader branch is picked *)
+Fixpoint find_idx {A} (P : A -> bool) (l : list A) : option nat :=
+  match l with
+  | [] => None
+  | x :: l => if P x then Some O else option_map S (find_idx P l)
+  end.
+
+
+Definition spec_idx (we re : env) (w : schema) (rbs : list schema) : option nat :=
+  match find_idx (same_named we re w) rbs with
+  | Some k => Some k
+  | None => match find_idx (smatch we re false w) rbs with
+            | Some k => Some k
+            | None => find_idx (smatch we re true w) rbs
+            end
+  end.
+
+
+Fixpoint first_branch_idx (mt : schema -> rres bool) (bs : list schema) : rres nat :=
+  match bs with
+  | [] => RErrResolution
+  | b :: bs => let+ x := mt b in if x then ROk O else let+ k := first_branch_idx mt bs in ROk (S k)
+  end.
+
+
+Definition pick_ok (code : rres nat) (spec : option nat) (cont : nat -> bool) : bool :=
+  match code, spec with
+  | ROk k, Some k' => Nat.eqb k k' && cont k
+  | RErrResolution, None => true
+  | _, _ => false
+  end.
+
+(** *** the keys of the record the code builds are determined by the two field lists *)
+Definition kadd (ks : list str) (k : str) : list str := if mem k ks then ks else ks ++ [k].
+
+Fixpoint rec_keys (rfs wfs : list field) (ks : list str) : list str :=
+  match wfs with
+  | [] => ks
+  | wf :: wfs => match reader_field rfs (fname wf) with
+                 | Some rf => rec_keys rfs wfs (kadd ks (fname rf))
+                 | None => rec_keys rfs wfs ks
+                 end
+  end.
+
+Definition guard_ok (rfs wfs : list field) : bool :=
+  let ks := rec_keys rfs wfs [] in
+  let tbl := field_table rfs in
+  (len tbl >? len ks) || forallb (fun e => mem (fst e) ks) tbl.
+
+(** JSON defaults that are already the Python value of their type *)
+Definition simple_default (s : schema) (d : pyval) : bool :=
+  let leaf s :=
+    match s, d with
+    | SNull, PNone | SBool, PBool _ | SInt, PInt _ | SLong, PInt _ | SDouble, PFloat _ | SString, PStr _
+    | SEnum _ _ _ _, PStr _ | SArray _, PList [] | SMap _, PDict [] => true
+    | _, _ => false
+    end in
+  match s with
+  | SUnion (b :: _) => negb (is_union b) && leaf b
+  | _ => leaf s
+  end.
+
+Definition defaults_simple (rfs : list field) : bool :=
+  forallb (fun e => match fdefault (snd e) with Some d => inline (ftype (snd e)) && simple_default (ftype (snd e)) d | None => true end)
+          (field_table rfs).
+
+Definition accept_ok (we re : env) (w r : schema) : bool :=
+  match match_top we re w r with
+  | ROk _ => smatch we re true w r
+  | RErrResolution => negb (smatch we re true w r)
+  | _ => false
+  end.
+
+Definition truthy_ok (r : schema) : bool := match r with SUnion [] => false | _ => true end.
+
+(** *** the agreement zone: every decision the code takes on the way coincides with the specification's.
+    It excludes exactly: a reader union in which the code's first matching branch is not the specification's
+    (F6), named types whose kind differs under matching names, int/long -> float, an empty-string enum default,
+    reader-only fields whose JSON default is not yet a value of the field's type, empty reader unions. *)
+Fixpoint agree (we re : env) (w r : schema) {struct w} : bool :=
+  let sub (b : schema) : bool :=
+    match w, b with
+    | SInt, SFloat | SLong, SFloat => false
+    | SEnum _ _ _ _, SEnum _ _ _ (Some []) => false
+    | SArray wi, SArray ri => agree we re wi ri
+    | SMap wv, SMap rv => agree we re wv rv
+    | SRecord _ _ wfs, SRecord _ _ rfs =>
+        forallb (fun wf => match reader_field rfs (fname wf) with
+                           | Some rf => agree we re (ftype wf) (ftype rf)
+                           | None => true end) wfs
+        && defaults_simple rfs && guard_ok rfs wfs
+    | _, _ => true
+    end in
+  truthy_ok r &&
+  match w with
+  | SUnion wbs =>
+      forallb (fun wb =>
+        match r with
+        | SUnion rbs =>
+            pick_ok (first_branch_idx (match_types_top we re wb) rbs) (spec_idx we re wb rbs)
+                    (fun k => match nth_error rbs k with Some b => agree we re wb b | None => false end)
+        | _ => match match_types_top we re wb r with
+               | ROk t => Bool.eqb t (smatch we re true wb r) && (if t then agree we re wb r else true)
+               | _ => false
+               end
+        end) wbs
+  | _ =>
+      match r with
+      | SUnion rbs =>
+          pick_ok (first_branch_idx (match_types (pred (mfuel w)) we re w) rbs) (spec_idx we re w rbs)
+                  (fun k => match nth_error rbs k with Some b => smatch we re true w b && sub b | None => false end)
+      | _ => accept_ok we re w r && (if smatch we re true w r then sub r else true)
+      end
+  end.
+
+
 (** text protocol *)
 Open Scope string_scope.
 Definition show_rres (x : rres (pyval * bytes)) : string :=
@@ -848,4 +982,4 @@ Definition run_resolve (o : ropts) (we re : env) (w : schema) (R : option schema
   | Ok (a, _) => show_rval (resolve we re w r a)
   | Err => "EO"
   | OutOfFuel => "FUEL"
-  end.
+  end ++ ";" ++ (if inline w && inline r && agree we re w r then "Z1" else "Z0").
